@@ -166,8 +166,12 @@ def check_struct(cx, fn, rep, facts, mutable):
         for x in atoms:
             if x[0] == 'truth' and x[1] == ('proj', 1, ('call', 'crate::common::r#type::dereference_changed', fieldty)):
                 is_ref_atoms.append(x[2])
-            elif x[0] == 'is' and x[1] == fieldty and x[2] == 'Type::Reference':
+            elif x[0] == 'is' and is_ungrouped(x[1], fieldty) and x[2] == 'Type::Reference':
                 is_ref_atoms.append(x[3])
+            elif x[0] == 'is' and x[1] == fieldty and x[2] == 'Type::Reference':
+                S.bad('SUM-DEREF', 'reference-test-sees-group', 'the test "the designated field is a reference" looks at the written type without peeling parentheses / the invisible group of a `$t:ty` fragment', b)
+                is_ref_atoms.append(x[3])
+                ok = False
             else:
                 S.bad('SUM-DEREF', 'struct-guard', 'the body is emitted under an unexpected condition %s' % atom_s(x)[:100], b)
                 ok = False
@@ -467,7 +471,7 @@ def dereference_loop_form(f):
         return False
     c = w['expr']['cond']
     if c.get('k') != 'Let' or c['pat'].get('k') != 'TupleStruct' or c['pat']['path']['s'] not in ('Type::Reference', 'syn::Type::Reference') \
-            or len(c['pat']['elems']) != 1 or c['pat']['elems'][0].get('k') != 'Ident' or es(c['expr']).replace('&', '').replace('*', '') != v:
+            or len(c['pat']['elems']) != 1 or c['pat']['elems'][0].get('k') != 'Ident' or es(c['expr']).replace('&', '').replace('*', '').replace(' ', '') not in ('ungroup(%s)' % v, 'crate::common::r#type::ungroup(%s)' % v):
         return False
     r = c['pat']['elems'][0]['name']
     body = w['expr']['body'].get('stmts', [])
@@ -477,8 +481,50 @@ def dereference_loop_form(f):
     return es(asg['l_']) == v and es(asg['r_']).replace(' ', '') in ('%s.elem.as_ref()' % r, '&%s.elem' % r, '&*%s.elem' % r)
 
 
+UNGROUP = ('crate::common::type::ungroup', 'crate::common::r#type::ungroup', 'ungroup')
+
+
+def is_ungrouped(x, of=None):
+    """x is `ungroup(<of>)`"""
+    return isinstance(x, tuple) and len(x) == 3 and x[0] == 'call' and x[1] in UNGROUP and (of is None or x[2] == of)
+
+
+def check_ungroup_helper(cx, rep, rule='SUM-DEREF'):
+    """common::type::ungroup peels every Type::Group / Type::Paren layer and nothing else"""
+    from .helpers import fn_term, P
+    fs = [f for f in cx.crate.fns if f.qname.endswith('common::type::ungroup')]
+    if len(fs) != 1:
+        # no helper of that name: every `Type::Reference` test on a written type is then reported where it stands
+        return False
+    f = fs[0]
+    t = fn_term(cx, f)
+    arms = {}
+    if isinstance(t, tuple) and t[0] == 'match' and t[1] == P(0):
+        for a in t[2:]:
+            arms[a[0]] = a[1]
+    else:
+        x = t
+        while isinstance(x, tuple) and x[0] == 'iflet' and x[2] == P(0):
+            arms[x[1]] = x[3]
+            x = x[4]
+        arms['_'] = x
+    def peel(k):
+        return ('call', None, ('field', ('payload', k, 0, P(0)), 'elem'))
+    def is_peel(x, k):
+        return isinstance(x, tuple) and len(x) == 3 and x[0] == 'call' and x[1] in UNGROUP and x[2] == peel(k)[2]
+    norm = dict((k.replace('syn::', ''), v) for k, v in arms.items())
+    ok = set(norm) == {'Type::Group(_)', 'Type::Paren(_)', '_'} and is_peel(norm['Type::Group(_)'], 'Type::Group') \
+        and is_peel(norm['Type::Paren(_)'], 'Type::Paren') and norm['_'] == P(0)
+    if ok:
+        rep.ok(rule, f.qname + '|peels groups and parentheses only', {'helper': f.qname})
+    else:
+        rep.bad(rule, f.qname, 'helper-shape', '`ungroup` no longer is "peel every Type::Group / Type::Paren layer, return anything else as it is"', f.file, f.line)
+    return ok
+
+
 def check_dereference_helper(cx, rep, rule='SUM-DEREF'):
-    """common::type::dereference / dereference_changed strip all leading references"""
+    """common::type::dereference / dereference_changed strip all leading references (seen through groups and parentheses)"""
+    check_ungroup_helper(cx, rep, rule)
     for name in ('dereference', 'dereference_changed'):
         fs = [f for f in cx.crate.fns if f.qname.endswith('common::type::' + name)]
         if len(fs) != 1:
@@ -488,10 +534,17 @@ def check_dereference_helper(cx, rep, rule='SUM-DEREF'):
         from .helpers import fn_term, P
         t = fn_term(cx, f)
         DEREF = ('crate::common::type::dereference', 'crate::common::r#type::dereference', 'dereference')
-        inner = ('field', ('payload', 'Type::Reference', 0, P(0)), 'elem')
         def rec(x):
-            return isinstance(x, tuple) and len(x) == 3 and x[0] == 'call' and x[1] in DEREF and x[2] == inner
-        ok = isinstance(t, tuple) and t[0] == 'iflet' and t[1] in ('Type::Reference(_)', 'syn::Type::Reference(_)') and t[2] == P(0)
+            return isinstance(x, tuple) and len(x) == 3 and x[0] == 'call' and x[1] in DEREF and isinstance(x[2], tuple) and len(x[2]) == 3 \
+                and x[2][0] == 'field' and x[2][2] == 'elem' and isinstance(x[2][1], tuple) and x[2][1][:3] == ('payload', 'Type::Reference', 0) \
+                and is_ungrouped(x[2][1][3], P(0))
+        ok = isinstance(t, tuple) and t[0] == 'iflet' and t[1] in ('Type::Reference(_)', 'syn::Type::Reference(_)')
+        if ok and t[2] == P(0):
+            rep.bad(rule, f.qname, 'reference-test-sees-group',
+                    '`%s` tests the written type for `Type::Reference` without peeling parentheses / the invisible group of a `$t:ty` fragment: such a reference field is treated as a value' % name,
+                    f.file, f.line)
+            continue
+        ok = ok and is_ungrouped(t[2], P(0))
         if not ok and name == 'dereference':
             ok_loop = dereference_loop_form(f)
             if ok_loop:
